@@ -568,6 +568,12 @@ func (t *Translator) call(x *ast.CallExpr) ex {
 		if len(x.Args) < 2 {
 			t.refuse(x, "make without length")
 		}
+		if t.runeSubset { // a negative length panics (trans_runes.go, Go.makeSlice)
+			t.needMonad(x, "make")
+			v := t.tmp()
+			pre = append(pre, fmt.Sprintf("let %s ← Go.makeSlice %s %s", v, ty.elem.zero, t.widen(arg(1), x.Args[1])))
+			return ex{pre, v}
+		}
 		if len(x.Args) == 3 {
 			return ex{pre, "(Go.make " + ty.elem.zero + " " + t.widen(arg(1), x.Args[1]) + ")"}
 		}
@@ -1424,7 +1430,7 @@ func needsMonad(fd *ast.FuncDecl, t *Translator) bool {
 			m = true
 		case *ast.CallExpr:
 			name := t.calleeName(x.Fun)
-			if name == "panic" {
+			if name == "panic" || (name == "make" && t.runeSubset) {
 				m = true
 			}
 			if strings.HasPrefix(name, ".") {
